@@ -187,11 +187,11 @@ def make_parsenet(path, horizontal_runs_only=False):
     return path
 
 
-def stroke_image(hlines, vlines, H=600, W=800, asc=12, desc=4, half=8, vthick=2):
+def stroke_image(hlines, vlines, H=600, W=800, asc=12, desc=4, half=8, vthick=2, hthick=2):
     """image whose channels drive the stub ParseNet: horizontal strokes (y, x0, x1) and vertical strokes (x, y0, y1)"""
     img = np.zeros((H, W, 3), np.uint8)
     for y, x0, x1 in hlines:
-        img[y - 2:y + 2, x0:x1, 2] = 255
+        img[y - hthick:y + hthick, x0:x1, 2] = 255
         img[y - half:y + half, x0:x1, 0] = int(255 * asc / 40)
         img[y - half:y + half, x0:x1, 1] = int(255 * desc / 20)
     for x, y0, y1 in vlines:
